@@ -227,7 +227,10 @@ class Marginal(Generic[R], SampleDistribution):
         bwd_request = ~self.selection
         weight = tr.project(sub_key, bwd_request)
         if self.algorithm is None:
-            return weight, latent_choices
+            # The unselected choices were proposed from their conditional
+            # priors (density `weight`), so the estimate of the marginal
+            # density of the selected choices is the rest of the score.
+            return tr.get_score() - weight, latent_choices
         else:
             target = Target(self.gen_fn, args, latent_choices)
             other_choices = choices.filter(~self.selection)
